@@ -313,6 +313,7 @@ func Block(site string) *G {
 	}
 	g.where = site
 	S.cur = nil
+	RaceReleaseMerge(unsafe.Pointer(&g.tok))
 	atomic.StoreInt32(&g.state, gNative)
 	return g
 }
